@@ -160,4 +160,11 @@ CHECKS = {
         "quick": {"shards": 16, "budget_s": 40, "min_evals": 500, "min_counters": {"schedules.conflict_refused": 300, "schedules.buffer_eviction_or_full": 300, "schedules.late_predecessor_released_buffered_writes": 100, "writes_applied_in_settle_phase": 3000}},
         "thorough": {"shards": 32, "parallel": 16, "budget_s": 300, "min_evals": 5000},
     },
+    "C09": {
+        "engine": "vp-cluster1", "level": "exploration",
+        "rule": "per shard one real single-node ClusterActor, mode A (rf=1, even shards): writes through ExecuteTransaction (confirmed at once); mode B (rf=3, odd shards): the harness plays coordinator through ReplicateWrite (stored at count 0) + ConfirmTransaction (quorum count) issued in batches, in order or shuffled, with delays. Per run on 1-3 fresh partitions: 3-14 history transactions, then 1-3 subscriptions (Partition, Partitions with explicit starts and fallback, Stream, Streams; start 0 / middle / end / latest; window 1/3/50/1000), 10-50 live writes (thorough: every 10th run 1200-1800 writes to overflow the 1000-slot broadcast channel), subscriber acknowledging with random lag and stalls. Online monitor on the mpsc receiver handed to Subscribe: cursor consecutive, event is a written event with equal content, matches the subscription, not delivered twice, position = previous+1 (first = start), partition sequence below the prefix for which confirmations had been issued, outstanding <= window; at quiescence every confirmed matching event from the start must have arrived (nothing delivered for 3 s after everything was acknowledged = lost). Directed (mode B, hook H5): a stream history of 110-170 commits with the watermark inside the first 50-commit history batch; the subscription is held at the top of its second history batch while everything is confirmed. non-trivial = distinct (run, subscription, window)",
+        "assumptions": A_COMMON + ["'from latest' subscriptions are checked for order, gaps, duplicates, confirmation and window only (their lower bound is not specified tightly enough to assert)", "liveness is restated as bounded progress: confirmed, everything acknowledged, 3 s without delivery"],
+        "quick": {"shards": 16, "budget_s": 45, "min_evals": 500, "min_counters": {"deliveries_checked": 50000, "long_history_cases": 16, "subscriptions.streams": 300, "subscriptions.partitions": 300}},
+        "thorough": {"shards": 32, "parallel": 16, "budget_s": 300, "min_evals": 5000},
+    },
 }
